@@ -108,7 +108,7 @@ func (w *dirhashWorld) Check(c *core.Case) ([]core.Violation, bool) {
 }
 
 func (w *dirhashWorld) Record(rng *rand.Rand, n int, emit func(k string, in, obs any)) {
-	pool := []string{"a", "b", "a/b", "a b", "a  b", "B", "é", "h111  a", "a/c", "go.mod", "x/y/z.go", "Z", "aa", "a.b", "a\nb"}
+	pool := []string{"a", "b", "a/b", "a b", "a  b", "B", "é", "h111  a", "a/c", "go.mod", "x/y/z.go", "Z", "aa", "a.b", "a\nb", "\nab", "a\n", "\n", "a%20b", "100%", "%[1]x", "%s", "%v%d", "%"}
 	for i := 0; i < n; i++ {
 		m := 1 + rng.Intn(8)
 		seen := map[string]bool{}
@@ -117,7 +117,7 @@ func (w *dirhashWorld) Record(rng *rand.Rand, n int, emit func(k string, in, obs
 		contents := map[string][]byte{}
 		for j := 0; j < m; j++ {
 			nm := pool[rng.Intn(len(pool))]
-			if nm == "a\nb" && rng.Intn(4) != 0 {
+			if strings.Contains(nm, "\n") && rng.Intn(4) != 0 {
 				nm = "a"
 			}
 			if seen[nm] {
